@@ -104,9 +104,11 @@ func NewAux(t Tag, value interface{}) (Aux, error) {
 		a[0], a[1], a[2] = t[0], t[1], 'Z'
 		copy(a[3:], v)
 	case Hex:
-		a = make(Aux, 3, len(v)+3)
+		// The field holds the bytes as hexadecimal text,
+		// which is what SAM and BAM store.
+		a = make(Aux, 3, 2*len(v)+3)
 		copy(a, Aux{t[0], t[1], 'H'})
-		a = append(a, v...)
+		a = append(a, bytes.ToUpper([]byte(hex.EncodeToString(v)))...)
 	default:
 		rv := reflect.ValueOf(value)
 		rt := rv.Type()
@@ -306,7 +308,7 @@ func (a Aux) String() string {
 	case 'A':
 		return fmt.Sprintf("%s:%c:%c", []byte(a[:2]), a.Kind(), a.Value())
 	case 'H':
-		return fmt.Sprintf("%s:%c:%02x", []byte(a[:2]), a.Kind(), a.Value())
+		return fmt.Sprintf("%s:%c:%s", []byte(a[:2]), a.Kind(), []byte(a[3:]))
 	case 'B':
 		return fmt.Sprintf("%s:%c:%c:%v", []byte(a[:2]), a.Kind(), a[3], a.Value())
 	}
@@ -323,7 +325,7 @@ func (sa samAux) String() string {
 	case 'A':
 		return fmt.Sprintf("%s:%c:%c", []byte(a[:2]), a.Kind(), a.Value())
 	case 'H':
-		return fmt.Sprintf("%s:%c:%02x", []byte(a[:2]), a.Kind(), a.Value())
+		return fmt.Sprintf("%s:%c:%s", []byte(a[:2]), a.Kind(), []byte(a[3:]))
 	case 'B':
 		var buf bytes.Buffer
 		fmt.Fprintf(&buf, "%s:%c:%c", []byte(a[:2]), a.Kind(), a[3])
@@ -421,7 +423,11 @@ func (a Aux) Value() interface{} {
 	case 'Z': // Z and H Require that parsing stops before the terminating zero.
 		return string(a[3:])
 	case 'H':
-		return []byte(a[3:])
+		b, err := hex.DecodeString(string(a[3:]))
+		if err != nil {
+			return fmt.Errorf("%%H!(BAD HEX %q)", []byte(a[3:]))
+		}
+		return b
 	case 'B':
 		length := int32(binary.LittleEndian.Uint32(a[4:8]))
 		switch t := a[3]; t {
